@@ -219,6 +219,15 @@ def _type_table(ctx: Ctx, formulas: dict[str, str]) -> None:
     mod = fi.module
     n = 0
     seen: set[str] = set()
+    # roles by use: the locals handed to __matrix_from_points as the
+    # coordinate dimension (2nd) and the distance function (4th)
+    mcalls = [c for c in ast.walk(fi.node) if isinstance(c, ast.Call)
+              and isinstance(c.func, ast.Name)
+              and "matrix_from_points" in c.func.id]
+    DF = mcalls[0].args[3].id if mcalls and len(
+        mcalls[0].args) >= 4 and isinstance(
+        mcalls[0].args[3], ast.Name) else "dist_fun"
+    EWT = fi.params[1] if len(fi.params) > 1 else "edge_weight_type"
     for node in ast.walk(fi.node):
         if not isinstance(node, ast.If):
             continue
@@ -226,7 +235,7 @@ def _type_table(ctx: Ctx, formulas: dict[str, str]) -> None:
         for s in node.body:
             if isinstance(s, ast.Assign) and isinstance(
                     s.targets[0], ast.Name) and \
-                    s.targets[0].id == "dist_fun" and isinstance(
+                    s.targets[0].id == DF and isinstance(
                     s.value, ast.Name):
                 fn = s.value.id
         if fn is None:
@@ -241,7 +250,7 @@ def _type_table(ctx: Ctx, formulas: dict[str, str]) -> None:
         for c in conj:
             if isinstance(c, ast.Compare) and len(c.ops) == 1 and isinstance(
                     c.ops[0], ast.Eq) and isinstance(
-                    c.left, ast.Name) and c.left.id == "edge_weight_type":
+                    c.left, ast.Name) and c.left.id == EWT:
                 ty = repo.const(mod, c.comparators[0])
         ok = ty is not None and formulas.get(fn) == ty
         if ty is not None:
@@ -272,7 +281,7 @@ def _type_table(ctx: Ctx, formulas: dict[str, str]) -> None:
             parts = [ast.unparse(v).replace(" ", "") for v in (
                 t.values if isinstance(t, ast.BoolOp) and isinstance(
                     t.op, ast.And) else [t])]
-            okg = "dist_funisnotNone" in parts
+            okg = f"{DF}isnotNone" in parts
     ctx.ob("D18.1", fi, calls[0] if calls else fi.node, okg,
            "the matrix is built only when a distance function was selected"
            if okg else "the matrix can be built without a selected distance "
@@ -551,9 +560,11 @@ def _writer(ctx: Ctx) -> None:
                 n.values[0].value.id.startswith("_KEY_"):
             emitted.add(n.values[0].value.id)
     handled = {c.comparators[0].id for c in ast.walk(fs.node)
-               if isinstance(c, ast.Compare) and isinstance(
-                   c.left, ast.Name) and c.left.id == "key"
-               and isinstance(c.comparators[0], ast.Name)}
+               if isinstance(c, ast.Compare) and len(c.ops) == 1
+               and isinstance(c.ops[0], ast.Eq) and isinstance(
+                   c.left, ast.Name)
+               and isinstance(c.comparators[0], ast.Name)
+               and c.comparators[0].id.startswith("_KEY_")}
     missing = sorted(emitted - handled - {"_KEY_COMMENT"})
     need_keys = {"_KEY_NAME", "_KEY_TYPE", "_KEY_DIMENSION",
                  "_KEY_EDGE_WEIGHT_TYPE", "_KEY_EDGE_WEIGHT_FORMAT"}
@@ -1140,12 +1151,21 @@ def _points_to_matrix(ctx: Ctx) -> None:
     calls = [c for c in ast.walk(dp.node) if isinstance(c, ast.Call)
              and isinstance(c.func, ast.Name) and repo.resolve(
                  dp.module, c.func.id) is fi]
+    # the second argument: a local that only ever holds 2 (or the literal);
+    # the fourth: the local the branches store the distance function in
+    a_ = calls[0].args if len(calls) == 1 else []
+    cdn = src(a_[1]) if len(a_) >= 2 else "?"
+    dfn = src(a_[3]) if len(a_) >= 4 else "?"
     dims = [s for s in ast.walk(dp.node) if isinstance(s, ast.Assign)
-            and src(s.targets[0]) == "coord_dim"]
-    okb = len(calls) == 1 and not calls[0].keywords and [
-        src(a) for a in calls[0].args] == [dp.params[0], "coord_dim",
-                                           dp.params[-1], "dist_fun"] and \
-        bool(dims) and all(repo.const(dp.module, s.value) == 2 for s in dims)
+            and src(s.targets[0]) == cdn]
+    dfs = [s for s in ast.walk(dp.node) if isinstance(s, ast.Assign)
+           and src(s.targets[0]) == dfn and isinstance(s.value, ast.Name)]
+    two = (len(a_) >= 2 and repo.const(dp.module, a_[1]) == 2) or (
+        bool(dims) and all(repo.const(dp.module, s.value) == 2
+                           for s in dims))
+    okb = len(calls) == 1 and not calls[0].keywords and len(a_) == 4 and \
+        src(a_[0]) == dp.params[0] and src(a_[2]) == dp.params[-1] and \
+        two and bool(dfs)
     ctx.ob("D18.5", dp, calls[0] if calls else dp.node, okb,
            "the dispatcher passes (n_cities, 2, stream, distance function) "
            "in this order" if okb else
@@ -1315,15 +1335,19 @@ def _header(ctx: Ctx) -> None:
         src(x).endswith(".find(':')") or src(x).endswith('.find(":")')
         for x in v)), None)
     line = None
+    KEY = VALUE = None
     if sep is None:
         problems.append("lines are not split at their first colon")
     else:
         line = src(defs[sep][0]).split(".find(")[0]
-        okk = any(src(x) == f"{line}[:{sep}].strip()"
-                  for x in defs.get("key", []))
-        okv = any(src(x) == f"{line}[{sep}+1:].strip()"
-                  for x in defs.get("value", []))
-        if not okk or not okv:
+        # the locals holding the text before / after the colon
+        KEY = next((k for k, v in defs.items() if any(
+            src(x) in (f"{line}[:{sep}].strip()", f"{line}[0:{sep}].strip()")
+            for x in v)), None)
+        VALUE = next((k for k, v in defs.items() if any(
+            src(x) in (f"{line}[{sep}+1:].strip()",
+                       f"{line}[1+{sep}:].strip()") for x in v)), None)
+        if KEY is None or VALUE is None:
             problems.append("key / value are not the text before / after "
                             "the colon (stripped)")
     # ---- which variable holds the value of which key
@@ -1331,7 +1355,7 @@ def _header(ctx: Ctx) -> None:
     for s in ast.walk(loop):
         if isinstance(s, ast.If) and isinstance(
                 s.test, ast.Compare) and len(s.test.ops) == 1 and isinstance(
-                s.test.ops[0], ast.Eq) and src(s.test.left) == "key":
+                s.test.ops[0], ast.Eq) and src(s.test.left) == KEY:
             k = repo.const(mod, s.test.comparators[0])
             if not isinstance(k, str):
                 continue
@@ -1340,14 +1364,9 @@ def _header(ctx: Ctx) -> None:
                         b.value is not None:
                     tg = b.targets[0] if isinstance(b, ast.Assign) \
                         else b.target
-                    if isinstance(tg, ast.Name) and tg.id.startswith(
-                            "the_") and "value" in {
+                    if isinstance(tg, ast.Name) and VALUE in {
                             x.id for x in ast.walk(b.value)
                             if isinstance(x, ast.Name)}:
-                        var_of_key[tg.id] = k
-                    if isinstance(tg, ast.Name) and tg.id.startswith(
-                            "the_") and isinstance(b.value, ast.Name) and \
-                            b.value.id == "value":
                         var_of_key[tg.id] = k
     ctx.count("header_keys", len(var_of_key))
     want_keys = {"NAME", "TYPE", "DIMENSION", "EDGE_WEIGHT_TYPE",
@@ -1359,7 +1378,7 @@ def _header(ctx: Ctx) -> None:
     # a key may occur once: the guard raises iff the variable is set already
     for s in ast.walk(loop):
         if isinstance(s, ast.If) and isinstance(
-                s.test, ast.Compare) and src(s.test.left) == "key":
+                s.test, ast.Compare) and src(s.test.left) == KEY:
             inner = [b for b in s.body if isinstance(b, ast.If) and b.body
                      and isinstance(b.body[-1], ast.Raise) and isinstance(
                          b.test, ast.Compare) and isinstance(
